@@ -13,6 +13,7 @@
 -/
 import NakenVerif.Link.ProofsProps
 import NakenVerif.Link.ProofsUniverse
+import NakenVerif.Link.ProofsNoFault
 import NakenVerif.Link.Examples
 
 namespace NakenVerif.Link.C20
@@ -131,47 +132,19 @@ theorem unsupported_object_is_error (fileName : Name) (data : Bytes) (isAr : Boo
   simp only [hk, hv]
   intro h; cases h
 
-private theorem guard_some {x : Option Nat} {k : Nat} {rest : Option Bool}
-    (h : (x.bind fun b => if b = k then rest else some false) = some true) : x = some k ∧ rest = some true := by
-  cases x with
-  | none => simp at h
-  | some b =>
-    simp only [Option.bind_some] at h
-    split at h
-    · rename_i e; exact ⟨by rw [e], h⟩
-    · cases h
-
 /-- `imports_obj_verify` accepts only 32-bit little-endian ELF files of at least a header's length. -/
 theorem verify_accepts_only_elf32_le (v : View) (h : Elf.verify v = some true) :
     52 ≤ v.size ∧ v.u8 0 = some 0x7f ∧ v.u8 1 = some 0x45 ∧ v.u8 2 = some 0x4c ∧ v.u8 3 = some 0x46 ∧
-    v.u8 4 = some 1 ∧ v.u8 5 = some 1 := by
-  unfold Elf.verify at h
-  cases hi : Elf.verifyIdent v with
-  | none => simp [hi] at h
-  | some ok =>
-    cases ok with
-    | false => simp [hi] at h
-    | true =>
-      clear h
-      unfold Elf.verifyIdent at hi
-      split at hi
-      · simp at hi
-      · rename_i hs
-        simp only [Option.bind_eq_bind, Option.pure_def, ne_eq, ite_not] at hi
-        obtain ⟨h0, hi⟩ := guard_some hi
-        obtain ⟨h1, hi⟩ := guard_some hi
-        obtain ⟨h2, hi⟩ := guard_some hi
-        obtain ⟨h3, hi⟩ := guard_some hi
-        cases h4 : v.u8 4 <;> simp only [h4, Option.bind_none, Option.bind_some] at hi
-        · cases hi
-        cases h5 : v.u8 5 <;> simp only [h5, Option.bind_none, Option.bind_some] at hi
-        · cases hi
-        split at hi
-        · cases hi
-        · rename_i e
-          refine ⟨by omega, h0, h1, h2, h3, ?_, ?_⟩
-          · congr; omega
-          · congr; omega
+    v.u8 4 = some 1 ∧ v.u8 5 = some 1 :=
+  Elf.verify_ident_facts v h
+
+/-- For every byte string given as .o / .a file, every source and every amount of fuel: no reader of the
+model ever reads outside `[buffer, buffer + file_size)` (the outcome `fault` does not occur), neither while the
+files are added (`verify`) nor during discovery, the two link passes and the relocation lookups. -/
+theorem readers_never_read_outside (files : List (Name × Bytes)) (imports : List Import) (cfg : Cfg) (p : Prog)
+    (fuel : Nat) :
+    (match addFiles files [] with | .fault => False | _ => True) ∧ linkAll (envOf imports) cfg p fuel ≠ .fault :=
+  ⟨addFiles_ne_fault files [], linkAll_ne_fault (envOf_noFault imports) cfg p fuel⟩
 
 /-! ## 6. termination of the closure computation -/
 
